@@ -146,7 +146,17 @@ class Inductor(Entity):
         self._last_arrival_time = now
 
         if self._can_forward(now):
-            return self._forward(event, now)
+            if self._queue.is_empty():
+                return self._forward(event, now)
+            # Events are already waiting: the oldest of them goes out and the
+            # new arrival joins the back of the queue, so forwarding stays in
+            # arrival order.
+            oldest = self._queue.pop()
+            self._queue.push(event)
+            self._queued += 1
+            result = self._forward(oldest, now)
+            result.extend(self._ensure_poll_scheduled(now))
+            return result
 
         # Queue the event
         if self._queue.push(event):
